@@ -7,8 +7,11 @@ import (
 	"encoding/json"
 	"fmt"
 	"math/rand"
+	"regexp"
 	"sort"
+	"strconv"
 	"strings"
+	"unicode/utf8"
 
 	"verifharness/vt"
 
@@ -355,12 +358,15 @@ func doHandle(w *vt.Writer, n int, ph planHandle, sec bool) {
 			"interop": map[string]any{"tried": false, "fam": "", "ab": "", "ba": ""}}
 		var blob []byte
 		var werr error
-		if try(func() { blob, werr = writeHandle(h, wm) }) {
+		ev["wtextleak"] = false
+		if pan, pv := vt.Try(func() { blob, werr = writeHandle(h, wm) }); pan {
 			ev["wpanic"] = true
+			ev["wtextleak"] = sec && textLeak(fmt.Sprintf("%v|%+v|%#v", pv, pv, pv), hwv.secret)
 			w.Emit(ev)
 			continue
 		}
 		if werr != nil {
+			ev["wtextleak"] = sec && errLeak(werr, hwv.secret)
 			w.Emit(ev)
 			continue
 		}
@@ -370,11 +376,14 @@ func doHandle(w *vt.Writer, n int, ph planHandle, sec bool) {
 		}
 		var reads []any
 		for _, rm := range allModes() {
-			r := map[string]any{"f": rm.F, "m": rm.M, "kek": rm.Kek, "ad": rm.Ad, "ok": false, "panic": false, "proj": []any{}}
+			r := map[string]any{"f": rm.F, "m": rm.M, "kek": rm.Kek, "ad": rm.Ad, "ok": false, "panic": false, "proj": []any{}, "textleak": false}
 			var h2 *keyset.Handle
 			var rerr error
-			if try(func() { h2, rerr = readHandle(blob, rm) }) {
+			if pan, pv := vt.Try(func() { h2, rerr = readHandle(blob, rm) }); pan {
 				r["panic"] = true
+				r["textleak"] = sec && textLeak(fmt.Sprintf("%v|%+v|%#v", pv, pv, pv), hwv.secret)
+			} else if rerr != nil {
+				r["textleak"] = sec && errLeak(rerr, hwv.secret)
 			} else if rerr == nil && h2 != nil {
 				r["ok"], r["proj"] = true, project(h2)
 				if rm == wm && !sec {
@@ -627,6 +636,136 @@ func art(fields []string, decoded bool, data []byte, secrets [][]byte) map[strin
 	return map[string]any{"fields": fields, "decoded": decoded, "leak": leakScan(data, secrets), "len": len(data)}
 }
 
+// ------------------------------------------------------------------ string-valued outputs
+// Every string an API hands back is an artifact: error texts, fmt renderings of handles, entries, keys and
+// parameters, panic values. textLeak scans one for key material in any of the encodings a formatter may apply.
+var numList = regexp.MustCompile(`(?:0x[0-9a-fA-F]{1,2}|\d{1,3})(?:,? (?:0x[0-9a-fA-F]{1,2}|\d{1,3})){7,}`)
+var numTok = regexp.MustCompile(`0x[0-9a-fA-F]{1,2}|\d{1,3}`)
+
+// unescape undoes backslash escapes wherever they occur: \ooo (octal, protobuf text format), \xHH and \uXXXX (Go %q,
+// %#v), and the single-character escapes. Everything else is copied.
+func unescape(s []byte) []byte {
+	out := make([]byte, 0, len(s))
+	isOct := func(c byte) bool { return c >= '0' && c <= '7' }
+	for i := 0; i < len(s); i++ {
+		if s[i] != '\\' || i+1 >= len(s) {
+			out = append(out, s[i])
+			continue
+		}
+		c := s[i+1]
+		switch {
+		case isOct(c):
+			v, j := 0, i+1
+			for ; j < len(s) && j < i+4 && isOct(s[j]); j++ {
+				v = v*8 + int(s[j]-'0')
+			}
+			out = append(out, byte(v))
+			i = j - 1
+		case c == 'x' && i+3 < len(s):
+			if b, err := hex.DecodeString(string(s[i+2 : i+4])); err == nil {
+				out = append(out, b[0])
+				i += 3
+			} else {
+				out = append(out, s[i])
+			}
+		case (c == 'u' && i+5 < len(s)) || (c == 'U' && i+9 < len(s)):
+			n := 4
+			if c == 'U' {
+				n = 8
+			}
+			if v, err := strconv.ParseUint(string(s[i+2:i+2+n]), 16, 32); err == nil {
+				out = utf8.AppendRune(out, rune(v))
+				i += 1 + n
+			} else {
+				out = append(out, s[i])
+			}
+		default:
+			m := map[byte]byte{'n': '\n', 'r': '\r', 't': '\t', 'a': 7, 'b': 8, 'f': 12, 'v': 11, '\\': '\\', '"': '"', '\'': '\''}
+			if b, ok := m[c]; ok {
+				out = append(out, b)
+				i++
+			} else {
+				out = append(out, s[i])
+			}
+		}
+	}
+	return out
+}
+
+// numberLists decodes every run of >= 8 small numbers ("[1 2 255]", "[]byte{0x1, 0x2}") into bytes.
+func numberLists(s []byte) []byte {
+	var out []byte
+	for _, run := range numList.FindAll(s, -1) {
+		for _, t := range numTok.FindAll(run, -1) {
+			v, err := strconv.ParseUint(string(t), 0, 16)
+			if strings.HasPrefix(string(t), "0") && !strings.HasPrefix(string(t), "0x") {
+				v, err = strconv.ParseUint(string(t), 10, 16)
+			}
+			if err != nil || v > 255 {
+				out = append(out, 0xff, 0x00, 0xff) // breaks a window
+				continue
+			}
+			out = append(out, byte(v))
+		}
+		out = append(out, 0xff, 0x00, 0xff, 0x00)
+	}
+	return out
+}
+
+// textLeak: raw / hex (both cases) / base64 of the text itself, of the text with its escapes undone (Go-escaped,
+// protobuf text-format octal), and of the byte lists printed as numbers.
+func textLeak(text string, secrets [][]byte) bool {
+	b := []byte(text)
+	return leakScan(b, secrets) || leakScan(unescape(b), secrets) || leakScan(numberLists(b), secrets)
+}
+
+func errLeak(err error, secrets [][]byte) bool {
+	return textLeak(fmt.Sprintf("%s|%v|%+v|%q", err.Error(), err, err, err.Error()), secrets)
+}
+
+// textArtifacts renders the handle, its entries, keys and parameters with the fmt verbs and collects the error texts
+// of the refusing *NoSecrets APIs.
+func textArtifacts(w *hw) []any {
+	out := []any{}
+	add := func(name string, f func() string) {
+		text := ""
+		pan, pv := vt.Try(func() { text = f() })
+		if pan {
+			text = fmt.Sprintf("%v|%#v", pv, pv)
+			name += " (panic value)"
+		}
+		out = append(out, map[string]any{"name": name, "leak": textLeak(text, w.secret), "len": len(text), "panic": pan})
+	}
+	h := w.h
+	add("error of NewHandleWithNoSecrets", func() string {
+		_, err := keyset.NewHandleWithNoSecrets(proto.Clone(w.ks).(*tinkpb.Keyset))
+		if err == nil {
+			return ""
+		}
+		return fmt.Sprintf("%s|%+v|%q", err.Error(), err, err.Error())
+	})
+	// one artifact per object: its renderings under all verbs, concatenated
+	render := func(x any, verbs ...string) string {
+		var sb strings.Builder
+		for _, v := range verbs {
+			sb.WriteString(fmt.Sprintf(v, x))
+			sb.WriteString(" | ")
+		}
+		return sb.String()
+	}
+	add("fmt %v %+v %#v %s %q of Handle", func() string { return render(h, "%v", "%+v", "%#v", "%s", "%q") })
+	for i := 0; i < h.Len(); i++ {
+		e, err := h.Entry(i)
+		if err != nil {
+			continue
+		}
+		add("fmt %v %+v %#v of Entry", func() string { return render(e, "%v", "%+v", "%#v") })
+		add("fmt %v %+v %#v of key object", func() string { return render(e.Key(), "%v", "%+v", "%#v") })
+		add("fmt %v %+v %#v of parameters object", func() string { return render(e.Key().Parameters(), "%v", "%+v", "%#v") })
+	}
+	return out
+}
+
 // secArtifacts exercises the *NoSecrets constructors and the metadata artifacts of one handle.
 func secArtifacts(w *hw) map[string]any {
 	out := map[string]any{}
@@ -638,6 +777,7 @@ func secArtifacts(w *hw) map[string]any {
 		ok = err == nil && h2 != nil
 	})
 	out["newHandleNoSecrets"] = map[string]any{"ok": ok, "panic": pan}
+	out["texts"] = textArtifacts(w)
 	// String()
 	str := ""
 	pan = try(func() { str = h.String() })
